@@ -1,6 +1,7 @@
 package main
 
 import (
+	"os"
 	"fmt"
 	"go/types"
 	"math/big"
@@ -155,6 +156,26 @@ func init() {
 		return nil
 	})
 	reg(vxPkg+"Observe", func(in *Interp, c *Frame, fn *ssa.Function, a []Value) Value {
+		if os.Getenv("GOSYM_OBSERVE") != "" {
+			iv, _ := a[1].(Iface)
+			out := fmt.Sprintf("%v", iv.v)
+			if sl, ok := iv.v.(Slice); ok && !sl.IsNil() {
+				if bs := in.sliceBytesSafe(sl); bs != nil {
+					out = ""
+					for _, b := range bs {
+						if b.IsConst() {
+							out += fmt.Sprintf("%02x", b.c)
+						} else {
+							out += "[" + b.String() + "]"
+						}
+					}
+				}
+			}
+			if len(out) > 3000 {
+				out = out[:3000] + "..."
+			}
+			fmt.Fprintf(os.Stderr, "OBSERVE %s = %s\n", in.concreteStr(a[0]), out)
+		}
 		return nil
 	})
 	reg(vxPkg+"Stub", func(in *Interp, c *Frame, fn *ssa.Function, a []Value) Value {
@@ -450,3 +471,12 @@ func sortedKeys(m map[string]bool) []string {
 }
 
 var feltP, _ = new(big.Int).SetString("800000000000011000000000000000000000000000000000000000000000001", 16)
+
+func (in *Interp) sliceBytesSafe(sl Slice) (out []*Term) {
+	defer func() {
+		if r := recover(); r != nil {
+			out = nil
+		}
+	}()
+	return in.sliceBytes(sl)
+}
